@@ -22,6 +22,8 @@ static int next_id = 1, next_heap_id = 2;
 static int dflt_idx = 0;      /* index in hps of the current default heap */
 static int padding = 0;
 static long nops = 0;
+static int word_offsets = 0;    /* only offsets that keep the result word-aligned (debug builds reject other pointers) */
+static long clock_on = 0;      /* > 0: advance the virtual clock by up to this many ms between calls */
 
 /* ---- op table */
 #define F_HEAP 1
@@ -267,7 +269,7 @@ static void op_alloc_ex(int op, size_t n, size_t al, size_t off, int hidx, int f
 static void op_alloc(void) {
   int op;
   do { op = (int)vf_randn(A_COUNT); }
-  while ((only_zero_ops && !(aops[op].fl & F_ZERO)) || (only_aligned && !(aops[op].fl & (F_AL | F_PAGEAL))) || (!allow_heaps && (aops[op].fl & F_HEAP)));
+  while ((only_zero_ops && !(aops[op].fl & F_ZERO)) || (only_aligned && !(aops[op].fl & (F_AL | F_PAGEAL))) || (allow_heaps == 0 && (aops[op].fl & F_HEAP)));
   size_t n = pick_size();
   size_t al = pick_align(n);
   size_t off = 0;
@@ -275,6 +277,7 @@ static void op_alloc(void) {
     switch (vf_randn(6)) { case 0: off = 0; break; case 1: off = 8; break; case 2: off = 24; break; case 3: off = al / 2; break;
                            case 4: off = (n > 0 ? n - 1 : 0); break; default: off = n + 8; break; }
     if (al > (16u << 20) && vf_randn(4) != 0) off = 0;
+    if (word_offsets) { off &= ~(size_t)7; if (al < 8) off = 0; }
   }
   op_alloc_ex(op, n, al, off, pick_heap_idx(), fill_mode_default);
 }
@@ -282,7 +285,7 @@ static void op_alloc(void) {
 /* ------------------------------------------------------------------ free */
 static void op_free_slot(int s, int fop) {
   blk_t* b = &slots[s];
-  if (fop == FR_free_size_aligned || fop == FR_free_aligned) { if (b->al == 0 || b->off != 0) fop = FR_free; }
+  if (fop == FR_free_size_aligned || fop == FR_free_aligned) { if (b->al == 0 || b->off != 0 || ((uintptr_t)b->p % b->al) != 0) fop = FR_free; }
   if (fop == FR_cfree && !mi_is_in_heap_region(b->p)) fop = FR_free;   /* mi_cfree is documented as "free if in heap region" (region map covers < 48 TiB) */
   log_call_begin(frops[fop], 0, b->id, (long)b->req, b->al, 0, 0, "ok", 0, 0);
   log_obs(s, -1, 1); log_call_end();
@@ -376,7 +379,7 @@ static void op_realloc_ex(int op, int s /* slot or -1 for NULL input */, size_t 
 }
 static void op_realloc(void) {
   int op;
-  do { op = (int)vf_randn(R_COUNT); } while ((only_zero_ops && !(rops[op].fl & F_ZERO)) || (!allow_heaps && (rops[op].fl & F_HEAP)));
+  do { op = (int)vf_randn(R_COUNT); } while ((only_zero_ops && !(rops[op].fl & F_ZERO)) || (allow_heaps == 0 && (rops[op].fl & F_HEAP)));
   int s = (vf_randn(12) == 0 ? -1 : pick_live());
   size_t n;
   if (s >= 0 && vf_randn(3) != 0) {   /* around the old size: in-place window, 50%-waste rule, class boundaries */
@@ -768,10 +771,17 @@ int main(int argc, char** argv) {
     else if (!strcmp(argv[i], "--maxsize") && i + 1 < argc) max_size = (size_t)atol(argv[++i]);
     else if (!strcmp(argv[i], "--profile") && i + 1 < argc) profile = argv[++i];
     else if (!strcmp(argv[i], "--prog") && i + 1 < argc) progpath = argv[++i];
+    else if (!strcmp(argv[i], "--clock") && i + 1 < argc) clock_on = atol(argv[++i]);
+    else if (!strcmp(argv[i], "--noheaps")) allow_heaps = -1;
+    else if (!strcmp(argv[i], "--wordoffsets")) word_offsets = atoi(argv[++i]);   /* only the backing heap (explicit-heap entry points still used, on the backing heap) */
     else usage();
   }
   if (!out) usage();
   if (maxlive > MAXSLOTS - 64) maxlive = MAXSLOTS - 64;
+#if (MI_DEBUG > 0)
+  if (word_offsets == 0) word_offsets = 1;    /* default in debug builds; "--wordoffsets -1" switches it off */
+#endif
+  if (word_offsets < 0) word_offsets = 0;
   vf_rng_state = seed * 0x9E3779B97F4A7C15ull + 12345;
   vf_log_open(out);
 #if MI_PADDING
@@ -788,7 +798,15 @@ int main(int argc, char** argv) {
 
   mi_heap_t* bh = mi_heap_get_backing();
   hps[0].hp = bh; hps[0].id = 1; hps[0].alive = 1;
-  vf_logf("{\"e\":\"cfg\",\"build\":\"%s\",\"padding\":%s,\"seed\":%llu,\"profile\":\"%s\"}", VF_CFG, padding ? "true" : "false", (unsigned long long)seed, profile);
+  int shim_on = 0;
+#if defined(VF_SHIM)
+  shim_on = 1;
+#endif
+  vf_logf("{\"e\":\"cfg\",\"build\":\"%s\",\"padding\":%s,\"seed\":%llu,\"profile\":\"%s\",\"shim\":%s,\"purge_delay\":%ld,\"segmap_part\":%zu,\"env\":\"",
+          VF_CFG, padding ? "true" : "false", (unsigned long long)seed, profile, shim_on ? "true" : "false", mi_option_get(mi_option_purge_delay), _mi_align_up(sizeof(mi_segmap_part_t), 4096));
+  { extern char** environ; for (char** e = environ; *e; e++) if (!strncmp(*e, "MIMALLOC_", 9)) vf_logf("%s ", *e); }
+  vf_logf("\",\"args\":\""); for (int i = 1; i < argc; i++) if (strcmp(argv[i], "--out") == 0) i++; else vf_logf("%s ", argv[i]);
+  vf_logf("\"}");
   vf_log_line_end();
 
   if (progpath) { run_program(progpath); ops = 0; }
@@ -796,6 +814,9 @@ int main(int argc, char** argv) {
   for (nops = 0; nops < ops; nops++) {
     int r = (int)vf_randn((uint64_t)total);
     if (nops % 500 == 499) op_checkall();
+#if defined(VF_SHIM)
+    if (clock_on && vf_randn(3) == 0) vf_clock_advance((long)vf_randn(clock_on));
+#endif
     /* steer the live-set size: phases of growth and shrink so pages fill, empty and get retired */
     int phase = (int)((nops / 400) % 4);
     int target = (phase == 0 ? maxlive : phase == 1 ? maxlive / 2 : phase == 2 ? maxlive : 8);
@@ -805,7 +826,7 @@ int main(int argc, char** argv) {
     if (r < w_realloc) { op_realloc(); continue; } r -= w_realloc;
     if (r < w_write) { op_write(); continue; } r -= w_write;
     if (r < w_query) { op_query(); continue; } r -= w_query;
-    if (r < w_heap) { if (allow_heaps) op_heap(); continue; } r -= w_heap;
+    if (r < w_heap) { if (allow_heaps > 0) op_heap(); continue; } r -= w_heap;
     if (r < w_visit) { op_collect(); op_visit(pick_heap_idx(), vf_randn(4) == 0 ? 1 + (int)vf_randn(5) : 0); continue; } r -= w_visit;
     if (r < w_collect) { op_collect(); continue; } r -= w_collect;
     if (r < w_expand) { op_expand(); continue; } r -= w_expand;
